@@ -18,7 +18,9 @@ class Seq:
         self.name = label or suite
         self.signature = signature  # function(bad_item) -> tag string, used to match known findings
     def budget(self, ctx):
-        return (self.quick if ctx.tier == "quick" else self.thorough) * ctx.scale
+        # the gowrap scenarios wait in real time (parked functions, grace periods): the extended search gets 3x, not 10x
+        scale = min(ctx.scale, 3) if self.suite == "gowrap" else ctx.scale
+        return (self.quick if ctx.tier == "quick" else self.thorough) * scale
     def run(self, ctx):
         seqdiff = go_build("seqdiff")
         wd = os.path.join(ctx.workdir, self.name)
